@@ -99,7 +99,7 @@ namespace c03
   //      cases is cross-checked against c.run_forked (counter trap_matches_fork).
   namespace trapimpl
   {
-    static sigjmp_buf jb; static volatile sig_atomic_t armed = 0; static bool installed = false;
+    static sigjmp_buf jb; static volatile sig_atomic_t armed = 0; static bool installed = false; static bool disabled = false;
     inline void handler(int s) { if(armed) { armed = 0; siglongjmp(jb, s); } signal(s, SIG_DFL); raise(s); }
     inline void install()
     {
@@ -112,10 +112,37 @@ namespace c03
   /// runs f; returns 0 if it returned, else the number of the fatal signal it raised
   template<typename F> int trapped(F&& f)
   {
+    if(trapimpl::disabled) { f(); return 0; }
     trapimpl::install();
     const int s = sigsetjmp(trapimpl::jb, 1);
     if(s == 0) { trapimpl::armed = 1; f(); trapimpl::armed = 0; return 0; }
     return s;
+  }
+
+  /**
+   * Wrapper for one product case. Plain build: body() runs in-process (fatal signals are trapped inside).
+   * Sanitizer build (VERIF_ASAN): a null dereference of an entry-free operand is reported by UBSan/ASan, whose runtime cannot be
+   * resumed after a trapped abort; there the cases with an entry-free operand run in a forked child without the trap, and only
+   * every 16th pattern tuple of them is executed (the remaining ones are counted) - the sanitizer build looks for memory errors in
+   * the regular executions, the entry-free crashes are recorded findings.
+   */
+  template<typename Body>
+  void product_case(verif::Ctx& c, bool entry_free, bool must_die, uint64_t tuple, const std::string& key, const std::string& efkey, Body&& body)
+  {
+#ifdef VERIF_ASAN
+    if(entry_free)
+    {
+      if(tuple % 16 != 0) { c.count("sanitizer_build:entry_free_product_cases_not_executed"); return; }
+      const int st = c.run_forked([&]{ trapimpl::disabled = true; c._outfile.clear(); const size_t before = c._nfail; body(); if(c._nfail != before) _exit(3); });
+      if(st == 0 || (must_die && st == SIGABRT)) return;
+      if(st < 1000) { c.count("entry_free_operand_crashes"); fail_throttled(c, efkey, "operation died with signal " + std::to_string(st) + " (the entry-free representation has no arrays)"); return; }
+      c.fail(key + " failure-in-forked-child", "forked product case exited with code " + std::to_string(st - 1000));
+      return;
+    }
+#else
+    (void)entry_free; (void)must_die; (void)tuple; (void)key; (void)efkey;
+#endif
+    body();
   }
 
   /// Expected-abort variant: the operation must die with SIGABRT (XABORTM); returning is the violation.
